@@ -143,4 +143,37 @@ Section Steps2.
         all: try stat_tac; try reflexivity.
         all: cbn [iter_b upd_borrow b_out]; lia.
   Qed.
+
+  Lemma open_borrow_good st bk lid l pr pid stable din ain aout bd brd st' :
+    Good cfg st -> zget (lends st) lid = Some l -> zget (c_pairs cfg) pid = Some pr -> l_asset l = pr_in pr -> 0 < ain ->
+    open_borrow st bk lid l pr pid stable din ain aout bd brd = Ok st' ->
+    Good cfg st' /\ prices st' = prices st.
+  Proof.
+    intros (HI & HS) Hl Hp Ha Hpos H. unfold Inv in HI. unfold open_borrow in H. destr_all H. spec_ubs. simp_pget. fin H.
+    (split; [split|reflexivity]).
+    - eapply (T_newborrow cfg _ _ _ _ _ HI lid l _ (mkBorrow (bctr st + 1) lid pid din ain aout bd brd 0 0 stable false)
+                          (pr_out_pool pr, pr_out pr)).
+      all: try (intros k; apply pget_pset2).
+      all: try eassumption.
+      all: try (apply bkey_of; exact Hp); try reflexivity.
+      unfold stat_out. cbn [b_stable b_out]. destruct stable;
+        cbn [s_lend s_bor s_sbor s_tia s_lids s_bids set_s_lend set_s_bor set_s_sbor set_s_tia set_s_lids set_s_bids]; repeat split; lia.
+      destruct stable; reflexivity.
+    - eapply S_bor_new; [eapply S_lend_upd; [exact HS|exact Hl|reflexivity]|].
+      split; [cbn [b_in]; exact Hpos|]. cbn [b_lend b_pair].
+      eexists _, pr. rewrite zget_zset_same. repeat split; [exact Hp|cbn [upd_lend l_asset]; exact Ha].
+  Qed.
+
+  Lemma borrow_asset_good st user lid pid stable din ain dout aout e1 e2 st' :
+    Good cfg st -> 0 < ain -> borrow_asset cfg st user lid pid stable din ain dout aout e1 e2 = Ok st' ->
+    Good cfg st' /\ prices st' = prices st.
+  Proof.
+    intros HG Hpos H. unfold borrow_asset in H. destr_all H.
+    - match goal with E : deposit_borrow_asset _ _ _ _ _ _ _ = Ok _ |- _ =>
+        destruct (deposit_borrow_good _ _ _ _ _ _ _ HG Hpos E) as (HG1 & HP1) end.
+      destruct (draw_good _ _ _ _ _ _ _ HG1 H) as (HG2 & HP2). split; [exact HG2|congruence].
+    - eapply open_borrow_good; try eassumption. lia.
+    - eapply open_borrow_good; try eassumption. lia.
+    - eapply open_borrow_good; try eassumption. lia.
+  Qed.
 End Steps2.
